@@ -44,8 +44,10 @@ func opGroup(op string) string {
 		return "null-field"
 	case opEmptyArr, opEmptyMap, opZeroInt, opEmptyBstr:
 		return "wrong-type-field"
-	case cbormut.OpTruncate, cbormut.OpExtend:
+	case cbormut.OpTruncate, cbormut.OpExtend, opTruncArr, opExtendArr:
 		return "array-length"
+	case opZeroBytes:
+		return "altered-value"
 	case cbormut.OpBitFlip, cbormut.OpReplace, cbormut.OpSwap, cbormut.OpIntStep, cbormut.OpZero:
 		return "altered-value"
 	case "hostile:selfdescribed-null":
